@@ -39,7 +39,7 @@ THEOREMS = [
 ]
 
 RULE = ("ising/generic: ladders of 0..8 real replicas (QmcIsingGraph / Qmc, 2-4 spins, random graphs with multi-edges, dyadic "
-        "J of both signs, Gamma, h, beta; ladder kinds also: opposite-sign twin edges + RVB + per-edge J ladders, h = 0 / h > 0 mixes at small beta*h (4 steps with updates in between), small energy units (everything x 2^-56 / 2^-58, beta x inverse, advanced without timestep), managers grown by hand through get_manager_mut().set_cutoff before a third of the steps; a third of the ladders with managers built WITHOUT the per-bond counter table (new_with_rng_with_manager_hook + FastOps::new_from_nvars: get_count walks the string), a third mixed, a third with generous initial cutoffs (sparse strings, operators at p > n); beta / J / Gamma / h / mixed ladders and ladders with repeated neighbours so that "
+        "J of both signs, Gamma, h, beta; ladder kinds also: opposite-sign twin edges + RVB + per-edge J ladders, h = 0 / h > 0 mixes at small beta*h (4 steps with updates in between), small energy units (everything x 2^-56 / 2^-58, beta x inverse, advanced without timestep), managers grown by hand through get_manager_mut().set_cutoff before a third of the steps; overflow regime: a freshly added replica at beta = k*2^50 without field next to a hot replica holding field operators (temperature factor +inf in binary64, Hamiltonian factor exactly 0, exact ratio 0); a third of the ladders with managers built WITHOUT the per-bond counter table (new_with_rng_with_manager_hook + FastOps::new_from_nvars: get_count walks the string), a third mixed, a third with generous initial cutoffs (sparse strings, operators at p > n); beta / J / Gamma / h / mixed ladders and ladders with repeated neighbours so that "
         "ham_eq pairs and evaluated pairs mix; generic: also the admission cases of mode_generic_mixed (see C05 gmixed); heat-bath on some) advanced to equilibrium with unequal cutoffs, then 2-3 "
         "tempering steps each driven by a recorded script; per step: exact after-state (cutoffs, states, operator strings, "
         "frame digest of every non-moving field), total_swaps, decision log from the delegation spy (which pairs, "
